@@ -39,8 +39,13 @@ class FakePort:
         cls = pool[self.script.consumed % len(pool)]
         if cls is serial.serialutil.PortNotOpenError:
             return cls()
+        # an I/O exception is an I/O exception whatever error number it carries: every third one carries a "try again" / "interrupted"
+        # number (EAGAIN, EWOULDBLOCK, EINTR), the others EIO or none
+        k = (self.script.consumed // max(1, len(pool))) % 3
         if issubclass(cls, serial.SerialException):
+            if k == 1 and self.wide_faults: return cls([11, 4, 11][self.script.consumed % 3], "Resource temporarily unavailable (injected fault on %s)" % where)
             return cls("injected fault on %s" % where)
+        if k == 1: return cls([11, 4, 35][self.script.consumed % 3], "Resource temporarily unavailable (injected fault on %s)" % where)
         return cls(5, "Input/output error (injected fault on %s)" % where)
     def write(self, data):
         self.write_attempts += 1
